@@ -203,7 +203,7 @@ def unbind(t, dim):
     if dim < 0:
         dim += t.dim()
     return [
-        t[[slice(None)] * dim + [sl] + [slice(None)] * (t.dim() - 1 - dim)]
+        t[tuple([slice(None)] * dim + [sl] + [slice(None)] * (t.dim() - 1 - dim))]
         for sl in range(t.shape[dim])
     ]
 
